@@ -6,12 +6,19 @@ Design level : specs/NewInitIdeal.tla gives the meaning of an initializer *point
                direct_newp, the optvarsize pre-pass (convert_struct_from_object /
                convert_vfield_from_object / add_varsize_length / get_new_array_length) and the
                sequential write pass (convert_from_object, convert_array_from_object, bit-field
-               read-modify-write).  specs/MC_NewInit.tla: 16 shapes (nested, union, anonymous union,
-               bit-fields, flexible byte / char16_t arrays, nested var-sized struct, arrays, char *)
+               read-modify-write).  A bytes/str initializer is a sequence of CHARACTERS (code points); the
+               ideal (StrUnits) says how many array items it takes - at width 2 a code point above U+FFFF
+               takes a surrogate pair - and the model transcribes the counter (_my_PyUnicode_SizeAsChar16,
+               used by the sizing pass and by the bound check) separately from the writer
+               (_my_PyUnicode_AsChar16); str initializers of char16_t arrays range over one-unit and two-unit
+               code points incl. both sides of the boundary (U+FFFF, U+10000).
+               specs/MC_NewInit.tla: 18 shapes (nested, union, anonymous union,
+               bit-fields, flexible byte / char16_t arrays, nested var-sized struct, arrays, char16_t[], char *)
                x all well-formed initializer trees of depth <= 2 / <= 2 array items (3 / 3 in the thorough tier): the model
                accepts them, never writes outside the allocation, allocates exactly
                max(sizeof, extent of the claims), produces the ideal bytes, and new-with-init equals
-               new-then-assign.  Four broken variants must be rejected.
+               new-then-assign.  Six broken variants must be rejected (incl. "pair-above-10000": the unit
+               counter takes U+10000 for a one-unit character).
                The CT_WITH_VAR_ARRAY flag is modelled as the type system computes it: in API mode nested
                struct types are lazy and are forced while the outer type is completed (VarFlag);
                variant "noforce-when-size-known" is rejected.
@@ -21,7 +28,10 @@ Binding      : spec -> code: every TLC state (shape, initializer, type history) 
                (bit-fields, unions, anonymous members, nested arrays, flexible arrays of
                prims/chars/structs, nested var-sized structs) x random nested initializers
                (list, tuple, dict, bytes/str, cdata copies, integer lengths), in-line and in compiled
-               API-mode modules (var-sized structs nested as last member, typedefs).  For every case:
+               API-mode modules (var-sized structs nested as last member, typedefs), plus a systematic sweep:
+               every encoding-boundary code point x every place a bytes/str initializes an array of
+               char16_t / wchar_t / char (open, exactly filled, with room, flexible member by position / name,
+               nested flexible member, member followed by others, one unit too long).  For every case:
                ffi.buffer of ffi.new(T, init), of ffi.new(T[, lengths]) followed by p[0] = init,
                ffi.sizeof(p[0]) and the size direct_newp asks the allocator for
                (ffi.new_allocator).  TLC judges every record against the ideal (Trace_NewInit).
@@ -34,10 +44,11 @@ from harness.mem2_child import run_child
 
 LEVEL = "model_checking"
 
-SHAPE_NAMES = ["S1", "S2", "S3", "S4", "S5", "S5w", "S6", "S7", "S8", "UN", "A1", "A2", "A3", "A4", "A5", "P1", "PC"]
+SHAPE_NAMES = ["S1", "S2", "S3", "S4", "S5", "S5w", "S6", "S7", "S8", "UN", "A1", "A2", "A3", "A4", "A5", "A6", "P1", "PC"]
 INVS = ["WellFormed", "ClaimsDisjoint", "FlagIsStructural", "Accepts", "NoOverflow", "Fits", "AllocExact", "BytesAsIdeal", "LawNewAssign"]
 
-VARIANTS = ("nozero", "noplus1", "unionall", "nodictprepass", "noforce-when-size-known")
+VARIANTS = ("nozero", "noplus1", "unionall", "nodictprepass", "noforce-when-size-known", "pair-above-10000")
+SANITY_SHAPES = {"pair-above-10000": ["S5w", "A4", "A6"]}       # default: S3 S5 S6 S7 S8 A5
 CLAUSE = {
     "new.raised": "ffi.new raised on a well-formed initializer",
     "new.fits": "the allocation does not contain everything the initializer (items or a length) claims",
@@ -72,6 +83,7 @@ def shapes_py():
         "S7": G("S7", False, [("a", U8, None),
                               ("", G(None, True, [("p", U8, None), ("q", U16, None)]), None), ("z", U8, None)]),
         "UN": UN, "A1": A(U8, 3), "A2": A(U16, None), "A3": A(SIN, 2), "A4": A(C16, 3), "A5": A(CH, None),
+        "A6": A(C16, None),
         "P1": U16, "PC": CH,
     }
 
@@ -124,15 +136,16 @@ def render(lab, t, init):
 def design_level(ctx):
     depth = 2 if ctx.quick else 3
     combos = "min" if ctx.quick else "all"
-    jobs = [("MC_NewInit(17 shapes,depth<=%d,%s type histories)" % (depth, combos),
+    jobs = [("MC_NewInit(18 shapes,depth<=%d,%s type histories)" % (depth, combos),
              dict(module="MC_NewInit", cfg_text=mc_cfg("faithful", depth, SHAPE_NAMES, INVS, kmax=depth, combos=combos),
                   workers=6, timeout=3000))]
     if ctx.quick:        # the quick bound is the bound whose states are executed: the same run dumps them
         jobs[0][1]["dump"] = os.path.join(ctx.tmp, "newinit_states")
     for v in VARIANTS:
         jobs.append(("sanity:" + v, dict(module="MC_NewInit", workers=2,
-                                         cfg_text=mc_cfg(v, 2, ["S3", "S5", "S6", "S7", "S8", "A5"], INVS))))
-    res = tlc_many(jobs, par=5)
+                                         cfg_text=mc_cfg(v, 2, SANITY_SHAPES.get(v, ["S3", "S5", "S6", "S7", "S8", "A5"]),
+                                                         INVS))))
+    res = tlc_many(jobs, par=7)
     for name, _kw in jobs:
         ctx.add_tlc(name, res[name], require_ok=name.startswith("MC_"), count_states=name.startswith("MC_"))
     ctx.cov["sanity_rejected_by"] = {}
@@ -293,6 +306,23 @@ def driver(ctx, lab, recs, n):
         ctx.case((rec["cdecl"], repr(init)))
 
 
+def boundary_sweep(ctx, lab, recs):
+    """code -> spec, systematic part: every encoding-boundary code point x every place a bytes/str initializes an
+    array of char16_t / wchar_t / char (see Lab.boundary_cases); neighbours, lengths and the struct around come
+    from ctx.rng.  Independent of the seed every boundary character meets the sizing pass (open arrays, flexible
+    members, nested), the write pass and the bound check of fixed arrays."""
+    n = 0
+    for cn in ("char16_t", "wchar_t", "char"):
+        for t, pyinit, init, what in lab.boundary_cases(mn.Prim(cn)):
+            lab.declare(t)
+            ctx.about("%s init %r" % (lab.cname(t), init))
+            rec = lab.run_case(t, pyinit, init, "boundary-str:%s %s" % (cn, what))
+            recs.append(rec)
+            ctx.case((rec["cdecl"], repr(init)))
+            n += 1
+    ctx.cov["boundary_str_cases"] = n
+
+
 def judge(ctx, recs, report=True):
     verdicts, diverge, _tot = batch_verdicts(ctx, "Trace_NewInit", [mn.strip(r) for r in recs],
                                                chunk=max(500, -(-len(recs) // 3)) if ctx.quick else 1500)
@@ -319,7 +349,8 @@ def produce(cc, args):
     recs = []
     replay_states(cc, lab, recs, args["dot"], args["shapes"])
     nstates = len(recs)
-    driver(cc, lab, recs, nstates + (1000 if cc.quick else 20000))
+    boundary_sweep(cc, lab, recs)
+    driver(cc, lab, recs, len(recs) + (1000 if cc.quick else 20000))
     napi0 = len(recs)
     if cc.quick:
         api_driver(cc, lab, recs, 3, 8, 5)
@@ -407,16 +438,19 @@ def selftest(ctx):
 
 META = {
     "category": "model_checking",
-    "text": "TLC checks, on 16 aggregate shapes x every well-formed initializer tree of depth <= 2 (3 in the thorough "
-            "tier), that the transcription of direct_newp, its optvarsize pre-pass and the sequential write pass "
+    "text": "TLC checks, on 18 aggregate shapes x every well-formed initializer tree of depth <= 2 (3 in the thorough "
+            "tier; str initializers are code-point sequences whose unit count - UTF-16 surrogate pairs - is defined "
+            "by the ideal), that the transcription of direct_newp, its optvarsize pre-pass and the sequential write pass "
             "accepts the initializer, stays inside the allocation, allocates exactly max(sizeof, extent of the "
             "claims), yields the order-free pointwise ideal memory (zero except claimed bytes/bits) and equals "
-            "new-then-assign; every such state and seeded random aggregate types x nested initializers are executed "
+            "new-then-assign; every such state, seeded random aggregate types x nested initializers and a sweep of "
+            "encoding-boundary characters over every string-initializer position are executed "
             "on the real cffi three ways (ffi.new with init, allocator-observed size, new then p[0]=init) and TLC "
             "judges every record against the ideal.",
     "note": "In-line FFIs and compiled API-mode modules (emit_c_code + gcc). Layout and value encoding are inputs (C01/C03/C05). The allocated size is observed through "
             "ffi.new_allocator (same direct_newp path). Ill-formed initializers and dicts naming two overlapping "
-            "union members are not judged. ffi.sizeof(p[0]) of objects from a custom alloc= allocator reports the "
+            "union members are not judged (a str too long for a fixed array is judged only for writes past the "
+            "allocation). ffi.sizeof(p[0]) of objects from a custom alloc= allocator reports the "
             "static size (outside the statement, noted in design_notes/C20.md).",
     "technique": "TLA+ model vs pointwise ideal (TLC) + execution of every TLC state + TLC validation of recorded constructions",
     "design_ref": "DESIGN.md §3 C20",
